@@ -230,6 +230,10 @@ mod proofs {
         check_from::<u64>();
     }
 
+
+    // (a harness over Ranges::check_deserialization with a Vec of <= 3 symbolic (Range, ParsedValue) branches was tried: CBMC
+    //  runs out of memory on the container of the recursive ParsedValue enum, so it is not part of the claim)
+
     // vacuity witness: a harness whose assertion must fail
     #[kani::proof]
     #[kani::unwind(3)]
